@@ -7,7 +7,7 @@ env.activate()
 
 import prov.model as pm  # noqa: E402
 from prov.constants import PROV, XSD  # noqa: E402
-from prov.identifier import Identifier, Namespace  # noqa: E402
+from prov.identifier import Identifier, Namespace, QualifiedName  # noqa: E402
 
 from pv.gen import CONVENIENCE, KINDS, NO_ID_FACTORY, SUBTYPE_FACTORIES, TIME_ATTRS  # noqa: E402
 
@@ -34,6 +34,45 @@ def _extras_arg(ex, style):
             d[n] = v
         return d
     return ex
+
+
+# ---- legitimate but unusual argument types (deterministic per value, so that twins of a program get the same ones) ------------------
+class OddStr(str):
+    """A str subclass with its own __str__ / __format__ (as an Enum member that mixes in str has): its *characters* are the name."""
+
+    def __str__(self):
+        return "OddStr<%s>" % str.__str__(self)
+
+    __format__ = lambda self, spec: "OddStr<%s>" % str.__str__(self)
+
+
+class StrictStr(str):
+    """A str subclass whose equality is type strict (as rdflib's terms are)."""
+
+    def __eq__(self, other):
+        return type(other) is StrictStr and str.__eq__(self, other)
+
+    def __ne__(self, other):
+        return not self.__eq__(other)
+
+    __hash__ = str.__hash__
+
+
+class SubInt(int):
+    """An int subclass (as an IntEnum member or a numpy-style integer is)."""
+
+
+class SubQN(QualifiedName):
+    """A user subclass of QualifiedName."""
+
+
+class AwareDT(datetime.datetime):
+    """A datetime subclass (as pandas.Timestamp, pendulum.DateTime are)."""
+
+
+def _pick(text, modulo):
+    import zlib
+    return zlib.crc32(text.encode("utf-8")) % modulo
 
 
 class State:
@@ -67,7 +106,15 @@ class State:
             return None
         f = spec["form"]
         if f == "qn":
-            return self.namespace(spec["prefix"], spec["ns"])[spec["local"]]
+            ns, local = self.namespace(spec["prefix"], spec["ns"]), spec["local"]
+            how = _pick("%s|%s|%s" % (spec["prefix"], spec["ns"], local), 40)
+            if how < 10:
+                return QualifiedName(ns, local)        # minted directly: another object than ns[local] hands out
+            if how == 10:
+                return SubQN(ns, local)
+            if how == 11 and spec.get("odd"):
+                return ns[OddStr(local)]         # only where the generator asks for it (C03's namespace histories)
+            return ns[local]
         if f == "xsd":
             return XSD[spec["local"]]
         if f == "prov":
@@ -78,10 +125,19 @@ class State:
 
     def mk_value(self, spec):
         k = spec["k"]
+        if k == "str" and spec["v"] and _pick(spec["v"], 30) == 0:
+            return StrictStr(spec["v"])
+        if k == "int" and _pick(str(spec["v"]), 25) == 0:
+            return SubInt(spec["v"])
         if k in ("str", "int", "float", "bool"):
             return spec["v"]
         if k == "dt":
-            return mk_dt(spec)
+            d = mk_dt(spec)
+            if d.tzinfo is not None and _pick(spec["iso"], 12) == 0:
+                return AwareDT(d.year, d.month, d.day, d.hour, d.minute, d.second, d.microsecond, d.tzinfo)
+            return d
+        if k == "recval":
+            return self.recs[spec["label"]]      # a record object as an attribute value: it stands for its identifier
         if k == "uri":
             return Identifier(spec["v"])
         if k == "qn":
@@ -96,6 +152,8 @@ class State:
         if spec is None:
             return None
         dt = mk_dt(spec)
+        if spec.get("as") != "iso" and dt.tzinfo is not None and _pick(spec["iso"], 12) == 0:
+            return AwareDT(dt.year, dt.month, dt.day, dt.hour, dt.minute, dt.second, dt.microsecond, dt.tzinfo)
         return dt.isoformat() if spec.get("as") == "iso" else dt
 
 
